@@ -196,6 +196,38 @@ def rule_grammar(ctx):
         pass
 
 
+def rule_sections_closed(ctx):
+    """Each section is closed exactly where its iterator is retired: announce=None <=> separator, withdraw=None / iter=None <=> footer."""
+    def through(b, site, sites):
+        nodes = {x.bb for x in sites}
+        if not nodes:
+            return False
+        if site.bb in nodes:
+            return True
+        if b.path_avoiding(site.bb, avoid_nodes=nodes) is None:
+            return True
+        return all(b.path_avoiding(r.bb, avoid_nodes=nodes, start=site.bb) is None for r in b.returns() if b.can_reach(site.bb, r.bb))
+    for bn, fld, closer, what in (
+            ('http::delta::DeltaStream::next_announce', 'announce', 'http::delta::DeltaStream::append_separator', 'separator between the announced and withdrawn lists'),
+            ('http::delta::DeltaStream::next_withdraw', 'withdraw', 'http::delta::DeltaStream::append_footer', 'footer closing the document'),
+            ('<http::delta::SnapshotStream as std::iter::Iterator>::next', 'iter', 'http::delta::DeltaStream::append_footer', 'footer closing the document')):
+        b = ctx.body(bn)
+        closers = b.calls(closer)
+        retire = [site for site, how, adt, f, place in field_writes(b) if f == fld and how == 'assign'
+                  and describe(b.origin_of_stmt(site)).startswith('Option::None')]
+        ctx.floor('K2', 'retire-iterator stores in %s' % bn.split('::')[-1], len(retire), 1)
+        for r in retire:
+            ctx.check(through(b, r, closers), 'K2', '%s:%s=None=>%s' % (bn.split('::')[-2].rstrip('>') + '::' + bn.split('::')[-1], fld, closer.split('::')[-1]),
+                      'when the %s iterator is retired the %s is written' % (fld, what),
+                      '%s retires its iterator (self.%s = None) on a path that does not write the %s: the streamed JSON document '
+                      'is left unterminated / the lists run into each other' % (bn, fld, what), loc=r.loc())
+        # and the closer is written only there (once): every closer call is followed by the retire store
+        for c in closers:
+            ctx.check(through(b, c, retire), 'K2', '%s:%s=>%s=None' % (bn.split('::')[-1], closer.split('::')[-1], fld),
+                      'after the %s the iterator is retired, so it is written once' % what,
+                      '%s writes the %s without retiring the iterator: it can be written again on the next call' % (bn, what), loc=c.loc())
+
+
 def rule_comma(ctx):
     ap = ctx.body('http::delta::DeltaStream::append_payload')
     pushes = [s for s in ap.calls('Vec::push') if "44" in arg_desc(s, 1) or "b','" in arg_desc(s, 1) or "','" in arg_desc(s, 1)]
@@ -274,4 +306,4 @@ def rule_comma(ctx):
                   'SnapshotStream comma flag is %s' % alts, loc=s.loc())
 
 
-RULES = [rule_k6, rule_grammar, rule_comma]
+RULES = [rule_sections_closed, rule_k6, rule_grammar, rule_comma]
